@@ -239,6 +239,27 @@ def run_shard(spec, rec):
             v = judge(res, ones)
             if v:
                 rec.violation(v[0], dict(v[1], query=t, document=jsonable(doc) if len(repr(doc)) < 3000 else "<large document>"))
+            elif ref[0] is not None and ref[1] is None and isinstance(doc, (list, dict)) and R.random() < 0.3:
+                # the document is updated in place: a query compiled before the update and the entry points that compile
+                # afresh must agree on the new content
+                try:
+                    c_old = env.compile(t)
+                    list(c_old.finditer(doc))
+                    if isinstance(doc, list):
+                        doc.append(D.deep_copy(R.choice([1, "a", {"a": 1, "b": [1]}, [1, 2], None])))
+                        if doc and R.random() < 0.5:
+                            doc[0] = D.deep_copy(R.choice([0, "x", {"a": 2}, [3]]))
+                    else:
+                        doc[R.choice(list(doc) + ["a", "b", "limit"])] = D.deep_copy(R.choice([1, "a", {"a": 1}, [1, 2], None, 7]))
+                    after = {"compiled-before-update.find": call_list(lambda: c_old.find(doc)), "compiled-before-update.finditer": call_list(lambda: c_old.finditer(doc)),
+                             "module.compile.finditer": call_list(lambda: jp.compile(t).finditer(doc)), "module.find": call_list(lambda: jp.find(t, doc))}
+                    one_after = {"compiled-before-update.find_one": call_one(lambda: c_old.find_one(doc))}
+                    rec.monitor("M-paths", 5)
+                    v2 = judge(after, one_after)
+                    if v2:
+                        rec.violation("after-in-place-update:" + v2[0], dict(v2[1], query=t, document_after_update=jsonable(doc) if len(repr(doc)) < 3000 else "<large document>"))
+                except Exception:  # noqa: BLE001
+                    pass
 
 
 def replay(case, rec):
